@@ -188,3 +188,385 @@ pub fn c11(c: &Corpus, _tier: &str) -> Report {
     r.distinct_nontrivial = distinct.len() as u64;
     r
 }
+
+// ------------------------------------------------------------------ C07
+/// candidate replacement layouts; each is used only under dialects that lex it purely as whitespace
+const LAYOUTS: &[&str] = &["  ", "\t", "\n", "\r", "\r\n", "\u{a0}", " /* c */ ", " -- c\n", " # c\n", " // c\n", "\n\n \t", " /* a /* b */ c */ ", "\u{3000}"];
+
+fn layout_ok(d: &dyn sqlparser::dialect::Dialect, l: &str) -> bool {
+    matches!(tokenize(d, true, l), G::Val(Ok(ts)) if !ts.is_empty() && ts.iter().all(|t| is_ws(&t.token)))
+}
+
+/// mutations that usually make an accepted text rejected (used for "a rejected text stays rejected")
+fn token_mutations(s: &str, toks: &[TokenWithLocation], li: &LineIndex, chars: &[char], limit: usize) -> Vec<String> {
+    let nows: Vec<&TokenWithLocation> = toks.iter().filter(|t| !is_ws(&t.token)).collect();
+    let mut out = vec![];
+    let off = |t: &TokenWithLocation| li.offset(t.location.line, t.location.column);
+    let n = nows.len();
+    let picks: Vec<usize> = if n <= limit { (0..n).collect() } else { (0..limit).map(|k| k * n / limit).collect() };
+    for &i in &picks {
+        let (a, b) = (off(nows[i]), if i + 1 < n { off(nows[i + 1]) } else { Some(chars.len()) });
+        if let (Some(a), Some(b)) = (a, b) {
+            if a > b || b > chars.len() { continue; }
+            // delete token i
+            out.push(format!("{}{}", chars[..a].iter().collect::<String>(), chars[b..].iter().collect::<String>()));
+            // duplicate token i
+            out.push(format!("{}{} {}", chars[..b].iter().collect::<String>(), chars[a..b].iter().collect::<String>(), chars[b..].iter().collect::<String>()));
+            // truncate before token i
+            out.push(chars[..a].iter().collect::<String>());
+        }
+    }
+    let _ = s;
+    out
+}
+
+pub fn c07(c: &Corpus, tier: &str) -> Report {
+    let mut r = Report::new("C07", "oracle.layout", "accepted corpus (text, dialect) pairs and rejected token-level mutations of them: every existing whitespace run between two tokens (from the real token stream) is replaced by each layout that the same dialect lexes purely as whitespace (blanks, tab, LF, CR, CRLF, NBSP, ideographic space, block/nested block/line comments, `#`/`//` comments); the tree must be equal, a rejected text must stay rejected. quick: each (dialect, left token, first char of right token, layout) key once; thorough: every position. non-trivial = distinct keys exercised");
+    let ds = all_dialects();
+    let layouts: Vec<Vec<&str>> = ds.iter().map(|(_, d)| LAYOUTS.iter().copied().filter(|l| layout_ok(d.as_ref(), l)).collect()).collect();
+    let o = Opts::DEFAULT;
+    let mut seen: BTreeSet<(usize, String, char, usize)> = BTreeSet::new();
+    let mut check = |r: &mut Report, k: usize, s: &str, rejected_base: bool| {
+        let (dn, d) = (&ds[k].0, ds[k].1.as_ref());
+        let toks = match tokenize(d, true, s) { G::Val(Ok(t)) => t, _ => return };
+        let base = match parse(d, o, s) { G::Val(b) => b, G::Panic(m) => { r.panic(dn, o, s, m); return; } };
+        if base.is_ok() == rejected_base { return; }
+        if let Ok(v) = &base { if has_copy_stdin(v) { r.count("skipped/copy-stdin"); return; } }
+        let li = LineIndex::new(s);
+        let chars: Vec<char> = s.chars().collect();
+        for i in 0..toks.len() {
+            if !is_ws(&toks[i].token) { continue; }
+            // maximal whitespace run [i, j)
+            if i > 0 && is_ws(&toks[i - 1].token) { continue; }
+            let mut j = i;
+            while j < toks.len() && is_ws(&toks[j].token) { j += 1; }
+            if i == 0 || j >= toks.len() { continue; } // between two tokens only
+            let (a, b) = match (li.offset(toks[i].location.line, toks[i].location.column), li.offset(toks[j].location.line, toks[j].location.column)) { (Some(a), Some(b)) if a < b && b <= chars.len() => (a, b), _ => continue };
+            let left = crate::canon::tok_canon(&toks[i - 1].token);
+            let rc = chars[b];
+            for (lidx, l) in layouts[k].iter().enumerate() {
+                if tier != "thorough" && !seen.insert((k, left.clone(), rc, lidx)) { continue; }
+                let t2 = format!("{}{}{}", chars[..a].iter().collect::<String>(), l, chars[b..].iter().collect::<String>());
+                r.evaluations += 1;
+                let sigl = format!("{:?}", l.chars().next().unwrap());
+                match (&base, parse(d, o, &t2)) {
+                    (Ok(v), G::Val(Ok(w))) => { if *v != w { r.fail(format!("tree-changed/after:{}/layout:{sigl}", crate::canon::tok_variant(&toks[i - 1].token)), dn, o, &t2, format!("orig={s:?}")); } }
+                    (Ok(_), G::Val(Err(e))) => r.fail(format!("rejected/after:{}/layout:{sigl}", crate::canon::tok_variant(&toks[i - 1].token)), dn, o, &t2, format!("orig={s:?} err={e}")),
+                    (Err(_), G::Val(Ok(_))) => r.fail(format!("accepted/after:{}/layout:{sigl}", crate::canon::tok_variant(&toks[i - 1].token)), dn, o, &t2, format!("orig rejected: {s:?}")),
+                    (Err(_), G::Val(Err(_))) => {}
+                    (_, G::Panic(m)) => r.panic(dn, o, &t2, m),
+                }
+                if r.evaluations % 20011 == 1 { r.sample(serde_json::json!({"dialect": dn, "orig": s, "layout": l, "replaced": t2})); }
+            }
+        }
+    };
+    for &(i, k) in &c.accepted {
+        let s = &c.literals[i];
+        check(&mut r, k, s, false);
+        // rejected neighbours (few per text in quick)
+        if tier == "thorough" || i % 5 == 0 {
+            let d = ds[k].1.as_ref();
+            if let G::Val(Ok(toks)) = tokenize(d, true, s) {
+                let li = LineIndex::new(s);
+                let chars: Vec<char> = s.chars().collect();
+                for m in token_mutations(s, &toks, &li, &chars, if tier == "thorough" { 8 } else { 2 }) {
+                    check(&mut r, k, &m, true);
+                }
+            }
+        }
+    }
+    r.distinct_nontrivial = seen.len() as u64;
+    if tier == "thorough" { r.distinct_nontrivial = r.evaluations; }
+    r
+}
+
+// ------------------------------------------------------------------ C10
+fn parse_err_position(msg: &str) -> Option<(u64, u64)> {
+    let p = msg.rfind(" at Line: ")?;
+    let rest = &msg[p + 10..];
+    let mut it = rest.split(", Column: ");
+    let l: u64 = it.next()?.trim().parse().ok()?;
+    let c: u64 = it.next()?.trim().parse().ok()?;
+    Some((l, c))
+}
+
+pub fn c10(c: &Corpus, tier: &str) -> Report {
+    let mut r = Report::new("C10", "oracle.error-position", "rejected texts obtained from accepted corpus texts by deleting, duplicating, truncating at and substituting tokens, all dialects: the error is a value (no panic); a syntax error with `at Line: l, Column: c` points at the start of a real token of tokenize_with_location; for `Expected: X, found: T` the token at that position prints as T; EOF errors carry no position; lexical errors point inside the input or just after its end; the same input gives the same error twice. non-trivial = distinct (error message shape, dialect)");
+    let ds = all_dialects();
+    let o = Opts::DEFAULT;
+    let mut distinct = BTreeSet::new();
+    let per = if tier == "thorough" { 12 } else { 3 };
+    for &(i, k) in &c.accepted {
+        if tier != "thorough" && (i + k) % 3 != 0 { continue; }
+        let s = &c.literals[i];
+        let (dn, d) = (&ds[k].0, ds[k].1.as_ref());
+        let toks = match tokenize(d, true, s) { G::Val(Ok(t)) => t, _ => continue };
+        let li = LineIndex::new(s);
+        let chars: Vec<char> = s.chars().collect();
+        let mut muts = token_mutations(s, &toks, &li, &chars, per);
+        // substitutions: replace a token by `)` / `,` / a keyword
+        let nows: Vec<&TokenWithLocation> = toks.iter().filter(|t| !is_ws(&t.token)).collect();
+        for (qi, t) in nows.iter().enumerate().step_by((nows.len() / per).max(1)) {
+            if let (Some(a), Some(b)) = (li.offset(t.location.line, t.location.column), nows.get(qi + 1).and_then(|n| li.offset(n.location.line, n.location.column)).or(Some(chars.len()))) {
+                if a <= b && b <= chars.len() {
+                    for sub in [")", ",", "SELECT", "'x", "\n@@\n"] {
+                        muts.push(format!("{}{} {}", chars[..a].iter().collect::<String>(), sub, chars[b..].iter().collect::<String>()));
+                    }
+                }
+            }
+        }
+        for m in muts {
+            let res = match parse(d, o, &m) { G::Val(x) => x, G::Panic(pm) => { r.panic(dn, o, &m, pm); continue; } };
+            let e = match res { Err(e) => e, Ok(_) => continue };
+            r.evaluations += 1;
+            // determinism
+            if let G::Val(Err(e2)) = parse(d, o, &m) { if e2 != e { r.fail("nondeterministic-error".into(), dn, o, &m, format!("{e} vs {e2}")); } }
+            let msg = e.to_string();
+            let shape: String = msg.chars().map(|c| if c.is_ascii_digit() { '0' } else { c }).take(40).collect();
+            distinct.insert((shape, k));
+            let mli = LineIndex::new(&m);
+            match &e {
+                sqlparser::parser::ParserError::TokenizerError(_) => {
+                    match parse_err_position(&msg) {
+                        Some((l, cc)) => match mli.offset(l, cc) {
+                            Some(off) if off <= mli.nchars => {}
+                            _ => r.fail("lex-error/position-outside-input".into(), dn, o, &m, msg.clone()),
+                        },
+                        None => r.fail("lex-error/no-position".into(), dn, o, &m, msg.clone()),
+                    }
+                }
+                sqlparser::parser::ParserError::ParserError(_) => {
+                    let mtoks = match tokenize(d, true, &m) { G::Val(Ok(t)) => t, _ => continue };
+                    match parse_err_position(&msg) {
+                        Some((l, cc)) => {
+                            let hit = mtoks.iter().find(|t| t.location.line == l && t.location.column == cc);
+                            match hit {
+                                None => r.fail("syntax-error/position-not-a-token-start".into(), dn, o, &m, msg.clone()),
+                                Some(t) => {
+                                    if let Some(p) = msg.find(", found: ") {
+                                        let found = &msg[p + 9..msg.rfind(" at Line: ").unwrap_or(msg.len())];
+                                        if found != t.token.to_string() {
+                                            r.fail("syntax-error/found-token-mismatch".into(), dn, o, &m, format!("{msg} ; token at position prints as {:?}", t.token.to_string()));
+                                        }
+                                    }
+                                }
+                            }
+                        }
+                        None => {
+                            // no position: must be an EOF error or a message without `found:`
+                            if let Some(p) = msg.find(", found: ") {
+                                let found = &msg[p + 9..];
+                                if found != "EOF" {
+                                    // a token built by the parser without location (with_tokens route is not used here)
+                                    r.fail("syntax-error/found-without-position".into(), dn, o, &m, msg.clone());
+                                }
+                            }
+                        }
+                    }
+                }
+                sqlparser::parser::ParserError::RecursionLimitExceeded => {}
+            }
+            if r.evaluations % 5003 == 1 { r.sample(serde_json::json!({"dialect": dn, "input": m, "error": msg})); }
+        }
+    }
+    r.distinct_nontrivial = distinct.len() as u64;
+    r
+}
+
+// ------------------------------------------------------------------ C14
+pub fn c14(c: &Corpus, tier: &str, seed: u64) -> Vec<Report> {
+    use sqlparser::parser::{Parser, ParserOptions};
+    use sqlparser::tokenizer::Tokenizer;
+    let ds = all_dialects();
+    let mut r = Report::new("C14", "oracle.routes", "every corpus literal (accepted or not) x dialect x 2 option sets: parse_sql == new().with_options().try_with_sql().parse_statements() == with_tokens_with_locations(tokenize_with_location) == with_tokens(tokenize) (errors compared modulo the position suffix for the location-less route); standalone parse_expr / parse_data_type / parse_object_name == the subtree inside `SELECT <e>`, `CAST(x AS <t>)`, `SELECT * FROM <n>`. non-trivial = distinct (outcome class, dialect, route)");
+    let mut distinct = BTreeSet::new();
+    let strip = |e: &sqlparser::parser::ParserError| -> String { let s = e.to_string(); match s.rfind(" at Line: ") { Some(p) => s[..p].to_string(), None => s } };
+    for (i, s) in c.literals.iter().enumerate() {
+        if tier != "thorough" && s.len() > 300 && i % 4 != 0 { continue; }
+        for (k, (dn, d)) in ds.iter().enumerate() {
+            let d = d.as_ref();
+            for o in [Opts::DEFAULT, Opts { unescape: false, trailing: Some(true), limit: None }] {
+                r.evaluations += 1;
+                let a = match parse(d, o, s) { G::Val(x) => x, G::Panic(m) => { r.panic(dn, o, s, m); continue; } };
+                distinct.insert((a.is_ok(), k, 0));
+                if o == Opts::DEFAULT {
+                    match guard(|| Parser::parse_sql(d, s)) {
+                        G::Val(b) => if b != a { r.fail("route/parse_sql-differs".into(), dn, o, s, format!("{:?} vs {:?}", trunc(&format!("{a:?}"), 150), trunc(&format!("{b:?}"), 150))); },
+                        G::Panic(m) => r.panic(dn, o, s, m),
+                    }
+                }
+                let toks = match guard(|| Tokenizer::new(d, s).with_unescape(o.unescape).tokenize_with_location()) { G::Val(t) => t, G::Panic(m) => { r.panic(dn, o, s, m); continue; } };
+                match toks {
+                    Err(te) => { if a != Err(sqlparser::parser::ParserError::from(te)) { r.fail("route/lex-error-differs".into(), dn, o, s, String::new()); } }
+                    Ok(tl) => {
+                        let plain: Vec<sqlparser::tokenizer::Token> = tl.iter().map(|t| t.token.clone()).collect();
+                        let tc = o.trailing.unwrap_or(d.supports_trailing_commas());
+                        let b = guard(|| Parser::new(d).with_options(ParserOptions::new().with_trailing_commas(tc).with_unescape(o.unescape)).with_tokens_with_locations(tl.clone()).parse_statements());
+                        match b { G::Val(b) => if b != a { r.fail("route/with_tokens_with_locations-differs".into(), dn, o, s, String::new()); }, G::Panic(m) => r.panic(dn, o, s, m) }
+                        let cres = guard(|| Parser::new(d).with_options(ParserOptions::new().with_trailing_commas(tc).with_unescape(o.unescape)).with_tokens(plain).parse_statements());
+                        match cres {
+                            G::Val(cv) => {
+                                let same = match (&a, &cv) { (Ok(x), Ok(y)) => x == y, (Err(x), Err(y)) => strip(x) == strip(y), _ => false };
+                                distinct.insert((cv.is_ok(), k, 2));
+                                if !same { r.fail("route/with_tokens-differs".into(), dn, o, s, format!("{} vs {}", trunc(&format!("{a:?}"), 150), trunc(&format!("{cv:?}"), 150))); }
+                            }
+                            G::Panic(m) => r.panic(dn, o, s, m),
+                        }
+                    }
+                }
+            }
+        }
+        if i % 997 == 3 { r.sample(serde_json::json!({"sql": s})); }
+    }
+    r.distinct_nontrivial = distinct.len() as u64;
+
+    // embedded vs standalone
+    let mut r2 = Report::new("C14", "oracle.embedded", "expressions, data types and object names harvested from parsed corpus statements (their printed form): standalone parse_expr/parse_data_type/parse_object_name on the printed text == the node found when the same text is embedded in `SELECT <e>`, `SELECT CAST(x AS <t>)`, `SELECT * FROM <n>`; non-trivial = distinct printed fragments");
+    {
+        use sqlparser::ast::*;
+        let o = Opts::DEFAULT;
+        let mut frags: BTreeSet<(usize, String, u8)> = BTreeSet::new();
+        for &(i, k) in &c.accepted {
+            let d = ds[k].1.as_ref();
+            if let G::Val(Ok(v)) = parse(d, o, &c.literals[i]) {
+                for st in &v {
+                    let _ = visit_expressions(st, |e: &Expr| { if frags.len() < 400000 { let t = e.to_string(); if t.len() < 200 { frags.insert((k, t, 0)); } } core::ops::ControlFlow::<()>::Continue(()) });
+                    let _ = visit_relations(st, |n: &ObjectName| { frags.insert((k, n.to_string(), 2)); core::ops::ControlFlow::<()>::Continue(()) });
+                    let _ = visit_expressions(st, |e: &Expr| { if let Expr::Cast { data_type, .. } = e { frags.insert((k, data_type.to_string(), 1)); } core::ops::ControlFlow::<()>::Continue(()) });
+                }
+            }
+        }
+        let mut n = 0usize;
+        for (k, text, kind) in &frags {
+            n += 1;
+            if tier != "thorough" && n % 4 != 0 { continue; }
+            let (dn, d) = (&ds[*k].0, ds[*k].1.as_ref());
+            r2.evaluations += 1;
+            let res: G<Option<String>> = guard(|| {
+                match kind {
+                    0 => {
+                        let alone = mk_parser(d, o).try_with_sql(text).and_then(|mut p| { let e = p.parse_expr()?; if p.peek_token().token != sqlparser::tokenizer::Token::EOF { return Err(sqlparser::parser::ParserError::ParserError("trailing".into())); } Ok(e) });
+                        let emb = Parser::parse_sql(d, &format!("SELECT {text}"));
+                        match (alone, emb) {
+                            (Ok(e), Ok(v)) => {
+                                if let Some(Statement::Query(q)) = v.first() { if let SetExpr::Select(sel) = &*q.body { if sel.projection.len() == 1 && sel.from.is_empty() { match &sel.projection[0] { SelectItem::UnnamedExpr(x) => { if *x != e { return Some(format!("alone={e:?} embedded={x:?}")); } } _ => {} } } } }
+                                None
+                            }
+                            _ => None,
+                        }
+                    }
+                    1 => {
+                        let alone = mk_parser(d, o).try_with_sql(text).and_then(|mut p| { let e = p.parse_data_type()?; if p.peek_token().token != sqlparser::tokenizer::Token::EOF { return Err(sqlparser::parser::ParserError::ParserError("trailing".into())); } Ok(e) });
+                        let emb = Parser::parse_sql(d, &format!("SELECT CAST(x AS {text})"));
+                        match (alone, emb) {
+                            (Ok(t), Ok(v)) => {
+                                let mut found = None;
+                                let _ = visit_expressions(&v[0], |e: &Expr| { if let Expr::Cast { data_type, .. } = e { found = Some(data_type.clone()); } core::ops::ControlFlow::<()>::Continue(()) });
+                                match found { Some(f) if f != t => Some(format!("alone={t:?} embedded={f:?}")), _ => None }
+                            }
+                            _ => None,
+                        }
+                    }
+                    _ => {
+                        let alone = mk_parser(d, o).try_with_sql(text).and_then(|mut p| { let e = p.parse_object_name(false)?; if p.peek_token().token != sqlparser::tokenizer::Token::EOF { return Err(sqlparser::parser::ParserError::ParserError("trailing".into())); } Ok(e) });
+                        let emb = Parser::parse_sql(d, &format!("SELECT * FROM {text}"));
+                        match (alone, emb) {
+                            (Ok(t), Ok(v)) => {
+                                let mut found = None;
+                                let _ = visit_relations(&v[0], |n: &ObjectName| { if found.is_none() { found = Some(n.clone()); } core::ops::ControlFlow::<()>::Continue(()) });
+                                match found { Some(f) if f != t => Some(format!("alone={t:?} embedded={f:?}")), _ => None }
+                            }
+                            _ => None,
+                        }
+                    }
+                }
+            });
+            match res {
+                G::Val(Some(detail)) => r2.fail(format!("embedded-differs/{}", ["expr", "data_type", "object_name"][*kind as usize]), dn, o, text, detail),
+                G::Val(None) => {}
+                G::Panic(m) => r2.panic(dn, o, text, m),
+            }
+            if r2.evaluations % 4001 == 1 { r2.sample(serde_json::json!({"dialect": dn, "fragment": text, "kind": kind})); }
+        }
+        r2.distinct_nontrivial = frags.len() as u64;
+    }
+
+    // reuse of one Parser value
+    let mut r3 = Report::new("C14", "oracle.reuse", "one Parser value re-targeted over random sequences of accepted and rejected corpus texts (try_with_sql / with_tokens): after every run verif_state() must show state Normal, the configured trailing_commas/unescape and the initial recursion depth, and the outcome must equal that of a fresh parser; non-trivial = sequences containing both accepted and rejected texts");
+    {
+        let mut rng = Rng(seed ^ 0xC14);
+        let nseq = if tier == "thorough" { 3000 } else { 400 };
+        let mut mixed = 0u64;
+        for _ in 0..nseq {
+            let k = rng.below(ds.len());
+            let (dn, d) = (&ds[k].0, ds[k].1.as_ref());
+            let tcv = rng.chance(1, 2);
+            let un = rng.chance(1, 2);
+            let limit = if rng.chance(1, 3) { 7 } else { 50 };
+            let o = Opts { unescape: un, trailing: Some(tcv), limit: Some(limit) };
+            let mut p = mk_parser(d, o);
+            let (mut saw_ok, mut saw_err) = (false, false);
+            for _ in 0..(2 + rng.below(6)) {
+                let s = &c.literals[rng.below(c.literals.len())];
+                r3.evaluations += 1;
+                let fresh = parse(d, o, s);
+                let step = guard(|| {
+                    let p2 = std::mem::replace(&mut p, mk_parser(d, o));
+                    match p2.try_with_sql(s) {
+                        Ok(mut q) => { let r = q.parse_statements(); let st = q.verif_state(); p = q; (Some(r), st) }
+                        Err(e) => { p = mk_parser(d, o); (Some(Err(e)), (0, true, tcv, un, limit)) }
+                    }
+                });
+                match (step, fresh) {
+                    (G::Val((Some(got), st)), G::Val(want)) => {
+                        if got.is_ok() { saw_ok = true } else { saw_err = true }
+                        if got != want { r3.fail("reuse/outcome-differs-from-fresh".into(), dn, o, s, String::new()); }
+                        if !(st.1 && st.2 == tcv && st.3 == un && st.4 == limit) {
+                            r3.fail("reuse/state-not-restored".into(), dn, o, s, format!("verif_state={st:?}"));
+                        }
+                    }
+                    (G::Panic(m), _) | (_, G::Panic(m)) => { r3.panic(dn, o, s, m); p = mk_parser(d, o); }
+                    _ => {}
+                }
+            }
+            if saw_ok && saw_err { mixed += 1; }
+        }
+        r3.distinct_nontrivial = mixed;
+        r3.sample(serde_json::json!({"sequences": nseq}));
+    }
+    vec![r, r2, r3]
+}
+
+// ------------------------------------------------------------------ C15
+pub fn c15(c: &Corpus, tier: &str) -> Report {
+    use crate::wrap::{Wrapped, WrappedOwnId};
+    let mut r = Report::new("C15", "oracle.wrapped-dialect", "every corpus literal (accepted or not) x 13 dialects x 2 option sets: parse and tokenize under the generated forwarding wrapper (every trait method forwarded, dialect() forwarded) == under the built-in dialect; under the wrapper that keeps its own identity: no panic. non-trivial = distinct (outcome class, dialect)");
+    r.exhaustive = true;
+    let mut distinct = BTreeSet::new();
+    for (i, s) in c.literals.iter().enumerate() {
+        if tier != "thorough" && s.len() > 400 && i % 3 != 0 { continue; }
+        for dn in DIALECT_NAMES {
+            let d = dialect(dn);
+            let w = Wrapped(dialect(dn));
+            let w2 = WrappedOwnId(dialect(dn));
+            for o in [Opts::DEFAULT, Opts { unescape: false, trailing: Some(true), limit: None }] {
+                r.evaluations += 1;
+                let a = parse(d.as_ref(), o, s);
+                let b = parse(&w, o, s);
+                match (a, b) {
+                    (G::Val(x), G::Val(y)) => { distinct.insert((x.is_ok(), dn)); if x != y { r.fail("wrapped/parse-differs".into(), dn, o, s, format!("{} vs {}", trunc(&format!("{x:?}"), 160), trunc(&format!("{y:?}"), 160))); } }
+                    (G::Panic(m), _) | (_, G::Panic(m)) => r.panic(dn, o, s, m),
+                }
+                match (tokenize(d.as_ref(), o.unescape, s), tokenize(&w, o.unescape, s)) {
+                    (G::Val(x), G::Val(y)) => if x != y { r.fail("wrapped/tokenize-differs".into(), dn, o, s, String::new()); },
+                    (G::Panic(m), _) | (_, G::Panic(m)) => r.panic(dn, o, s, m),
+                }
+                if let G::Panic(m) = parse(&w2, o, s) { r.panic(dn, o, s, m); }
+                if let G::Panic(m) = tokenize(&w2, o.unescape, s) { r.panic(dn, o, s, m); }
+            }
+        }
+        if i % 1999 == 7 { r.sample(serde_json::json!({"sql": s})); }
+    }
+    r.distinct_nontrivial = distinct.len() as u64;
+    r
+}
